@@ -99,10 +99,20 @@ class BoolEval:
             a, pol = norm_atom(self.canon(n))
         return sigma[a] == pol
 
+    def _pats(self, pats, sigma):
+        return all(c_ == "true" or (sigma[norm_atom(c_)[0]] == norm_atom(c_)[1]) for c_ in pats)
+
     def ev_cond(self, pc, sigma):
         """one path-condition entry under sigma"""
+        if pc["kind"] == "arm-exit" and "exit_pats" in pc:
+            # what holds after a match one of whose arms leaves: that arm was not the one taken
+            taken = self._pats(pc["exit_pats"], sigma) and (self.ev(pc["exit_guard"], sigma) if pc.get("exit_guard") is not None else True)
+            for pats, g in pc.get("exit_prevs") or ():
+                if self._pats(pats, sigma) and (self.ev(g, sigma) if g is not None else True):
+                    taken = False
+            return not taken
         if pc["kind"] == "arm-prev":
-            pat = True if pc["prev_pat"] == "true" else (sigma[norm_atom(pc["prev_pat"])[0]] == norm_atom(pc["prev_pat"])[1])
+            pat = all(c_ == "true" or (sigma[norm_atom(c_)[0]] == norm_atom(c_)[1]) for c_ in (pc.get("prev_pats") or [pc["prev_pat"]]))
             g = self.ev(pc["prev_guard"], sigma) if pc.get("prev_guard") is not None else True
             return not (pat and g)
         if "expr" in pc:
@@ -112,9 +122,23 @@ class BoolEval:
         return sigma[a] == pol
 
     def cond_atoms(self, pc, out):
+        if pc["kind"] == "arm-exit" and "exit_pats" in pc:
+            for c_ in pc["exit_pats"]:
+                if c_ != "true":
+                    out.add(norm_atom(c_)[0])
+            if pc.get("exit_guard") is not None:
+                self.leaves(pc["exit_guard"], out)
+            for pats, g in pc.get("exit_prevs") or ():
+                for c_ in pats:
+                    if c_ != "true":
+                        out.add(norm_atom(c_)[0])
+                if g is not None:
+                    self.leaves(g, out)
+            return out
         if pc["kind"] == "arm-prev":
-            if pc["prev_pat"] != "true":
-                out.add(norm_atom(pc["prev_pat"])[0])
+            for c_ in (pc.get("prev_pats") or [pc["prev_pat"]]):
+                if c_ != "true":
+                    out.add(norm_atom(c_)[0])
             if pc.get("prev_guard") is not None:
                 self.leaves(pc["prev_guard"], out)
             return out
